@@ -40,9 +40,17 @@ func c10(c *Ctx) {
 			f := gen.GenFile(newRand(c.R.Int63()), o, 1, 1+i%2)
 			_, base := f.Print()
 			bases = append(bases, []byte(base))
-			for _, inj := range gen.InjectAll(f, c.N(6, 0)) {
+			for k, inj := range gen.InjectAll(f, c.N(6, 0)) {
 				cases = append(cases, faultCase{inj, i})
 				inputs = append(inputs, []byte(inj.Src))
+				if (k+i)%3 == 0 {
+					// the same malformed file as an editor that writes CRLF line ends saves it
+					cr := inj
+					cr.Fault += "/crlf"
+					cr.Src = strings.ReplaceAll(inj.Src, "\n", "\r\n")
+					cases = append(cases, faultCase{cr, i})
+					inputs = append(inputs, []byte(cr.Src))
+				}
 			}
 		}
 	}
